@@ -342,10 +342,10 @@ def ensure_parent(tag):
 # inputs rejected in the MIDDLE (a ParseError that is not at the end of the input takes its own path
 # through the generated error functions), appended to every template's inputs
 MID_INPUT_ERRORS = {
-    'main': ['?', 'a:1 ?x', '(a?)', '<a ?>', '$a ?', 'a ?'],
-    'constructs': ['?', 'k a ?', '@a ?~1', '^a 1,?'],
-    'derived': ['?', '@a=?', '[?]', '(1,?)'],
-    'crossing': ['?', '(1)(a)?', '(?)', '(1)(?);'],
+    'main': ['?', 'a ?', ('rule', 'Pair', 'a:?x'), ('rule', 'Pair', 'a?:1'), ('rule', 'Group', '(a?x'), ('rule', 'Bound', '$?x'), ('rule', 'Entry', '?x')],
+    'constructs': ['?', ('rule', 'Misc', '^?x'), ('rule', 'Misc', '^a 1,?x'), ('rule', 'KwLet', 'k ?x'), ('rule', 'UseRep', '*?x')],
+    'derived': ['?', ('rule', 'DPair', '@a=?x'), ('rule', 'DPair', '@?x'), ('rule', 'DList', '(1,?x'), ('rule', 'DNum', '?x')],
+    'crossing': ['?', ('rule', 'XEntry', '(1)(?x'), ('rule', 'XEntry', '(?x'), ('rule', 'XNum', '?x')],
     'optable': ['?', '1+?', '(1?'],
 }
 
